@@ -391,6 +391,11 @@ class Run:
             logging.setLogRecordFactory(tagging_factory)
         f0 = logging.getLogRecordFactory()
         wall0 = time.time()
+        import signal as _signal
+
+        def app_handler(signum, frame):      # the application's own handlers: run(stop_signals=[]) leaves them alone
+            pass
+        old_sig = {sg: _signal.signal(sg, app_handler) for sg in (_signal.SIGTERM, _signal.SIGINT)}
         with vclock.virtual_time() as loop:
             self.build(loop)
 
@@ -461,6 +466,10 @@ class Run:
 
             self.watchdog_fired = False
             loop.run_until_complete(main())
+        for sg, prev in old_sig.items():
+            if _signal.getsignal(sg) is not app_handler:
+                self.log_problems.append(f"signal handler of {sg!r} replaced although run() was given stop_signals=[]")
+            _signal.signal(sg, prev)
         # ---- logging behaves as before the run
         f1 = logging.getLogRecordFactory()
         if f1 is not f0 and not self.factory_wrapped:
@@ -584,7 +593,7 @@ class Run:
                     out.append(("isolation_job_lost", f"job {ji} started {jstarts.get(ji, 0)} times"))
         # 7. logging
         for p in self.log_problems:
-            out.append(("logging_not_restored", f"{p} (exit path {sc['exit']}, outcome {kind}, producer failing in "
+            out.append(("signal_handler_replaced" if "signal handler" in p else "logging_not_restored", f"{p} (exit path {sc['exit']}, outcome {kind}, producer failing in "
                                                 f"{sc['fault_point']['producer_fail']})"))
         return out
 
